@@ -83,6 +83,12 @@ type UserBindEngine struct {
 	// int-represented enum to a string or any of these kinds (a kind that can hold at least one member's
 	// representation int).  Off (C08, C09, C13): int64 / int, and string / int32 / int64 / int.
 	AllIntKinds bool
+	// AllSlotShapes (C19): the other slot shapes verifyCompatibility accepts and the node code serves: a slot that is not
+	// nullable (struct field, list element, map value; also the value behind an optional field's or a union member's
+	// pointer) is sometimes bound to ONE pointer; an optional field that is not nullable, or a nullable field that is not
+	// optional, is sometimes bound to a bare nilable Go type (slice, []byte, datamodel.Link, datamodel.Node) instead of a
+	// pointer.  Off: pointers exactly for optional and nullable.
+	AllSlotShapes bool
 }
 
 var allIntKindTypes = []reflect.Type{
@@ -161,14 +167,14 @@ func (e *UserBindEngine) goType(t schema.Type) reflect.Type {
 		return reflect.TypeOf("")
 	case *schema.TypeList:
 		et := e.goType(typ.ValueType())
-		if typ.ValueIsNullable() {
+		if typ.ValueIsNullable() || (e.AllSlotShapes && e.pick("elemptr:"+typ.Name(), 5) == 0) {
 			et = reflect.PointerTo(et)
 		}
 		return reflect.SliceOf(et)
 	case *schema.TypeMap:
 		kt := e.goType(typ.KeyType())
 		vt := e.goType(typ.ValueType())
-		if typ.ValueIsNullable() {
+		if typ.ValueIsNullable() || (e.AllSlotShapes && e.pick("valueptr:"+typ.Name(), 5) == 0) {
 			vt = reflect.PointerTo(vt)
 		}
 		return reflect.StructOf([]reflect.StructField{{Name: "Keys", Type: reflect.SliceOf(kt)}, {Name: "Values", Type: reflect.MapOf(kt, vt)}})
@@ -176,11 +182,22 @@ func (e *UserBindEngine) goType(t schema.Type) reflect.Type {
 		var fs []reflect.StructField
 		for _, f := range typ.Fields() {
 			ft := e.goType(f.Type())
-			if f.IsNullable() {
-				ft = reflect.PointerTo(ft)
+			k := 99
+			if e.AllSlotShapes {
+				k = e.pick("fieldslot:"+typ.Name()+"."+f.Name(), 8)
 			}
-			if f.IsOptional() {
+			nilable := ft.Kind() == reflect.Slice || ft.Kind() == reflect.Interface
+			switch {
+			case f.IsOptional() && f.IsNullable():
+				ft = reflect.PointerTo(reflect.PointerTo(ft)) // the double pointer is mandatory
+			case f.IsOptional() && nilable && k < 3, f.IsNullable() && nilable && k < 3:
+				// the bare nilable type: nil is absent / null
+			case f.IsOptional() && k == 3:
+				ft = reflect.PointerTo(reflect.PointerTo(ft)) // optional, and one pointer on the value behind it
+			case f.IsOptional(), f.IsNullable():
 				ft = reflect.PointerTo(ft)
+			case k < 2:
+				ft = reflect.PointerTo(ft) // one pointer on a required, non-nullable field
 			}
 			fs = append(fs, reflect.StructField{Name: userFieldName(f.Name()), Type: ft})
 		}
@@ -188,7 +205,11 @@ func (e *UserBindEngine) goType(t schema.Type) reflect.Type {
 	case *schema.TypeUnion:
 		var fs []reflect.StructField
 		for _, m := range typ.Members() {
-			fs = append(fs, reflect.StructField{Name: userFieldName(m.Name()), Type: reflect.PointerTo(e.goType(m))})
+			mt := reflect.PointerTo(e.goType(m))
+			if e.AllSlotShapes && e.pick("memberptr:"+typ.Name()+"."+m.Name(), 8) == 0 {
+				mt = reflect.PointerTo(mt) // one pointer on the value behind the member's pointer
+			}
+			fs = append(fs, reflect.StructField{Name: userFieldName(m.Name()), Type: mt})
 		}
 		return reflect.StructOf(fs)
 	}
